@@ -64,6 +64,12 @@ def gen_invalid(sc, rng, for_write):
                                  1 << 31, (1 << 32) - 1, 1 << 32, (1 << 32) + 5, 10 ** 20])
             v = logixreq.gen_value_for(t.dtype, rng, overlong_strings=False)
             return Bad(f"{t.full_name}[{','.join(map(str, idx))}]", c, v)
+        if c == "count-out-of-range" and t.dims and t.dtype.name != "DWORD" and rng.random() < 0.3:
+            # far out of range: counts at and beyond what the 16-bit element-count field of the tag services can carry
+            n = rng.choice([65535, 65536, 65537, 70000, 1 << 31, 1 << 32, 10 ** 20])
+            n = max(n, t.elements + 1)
+            v = [logixreq.gen_value_for(t.dtype, rng, overlong_strings=False) for _ in range(3)]
+            return Bad(f"{t.full_name}{{{n}}}", c, v)
         if c == "count-out-of-range" and t.dims and t.dtype.name != "DWORD" and t.dtype.size * (t.elements + 3) < 9000:
             n = t.elements + rng.choice([1, 2, 3])
             v = [logixreq.gen_value_for(t.dtype, rng, overlong_strings=False) for _ in range(n)]
